@@ -512,7 +512,11 @@ static int preparePublicationRequest(KSI_NetworkClient *client, KSI_RequestHandl
 		goto cleanup;
 	}
 
-	sendPublicationRequest(client, tmp, endp->path);
+	res = sendPublicationRequest(client, tmp, endp->path);
+	if (res != KSI_OK) {
+		KSI_pushError(client->ctx, res, NULL);
+		goto cleanup;
+	}
 
 	*handle = tmp;
 	tmp = NULL;
